@@ -168,6 +168,23 @@ def parseTree : Nat → List String → Option (A.Tree Nat × List String)
         (parseTree fuel r').map (fun (c, r'') => (A.Tree.ite a b c, r''))))
     | _ => none
 
+/-- `exprtree`: an expression built constructor by constructor (prefix notation) -/
+def parseExprTree (env : Array Ref) (ok : Ref → Bool) : Nat → List String → Option (Expr × List String)
+  | 0, _ => none
+  | fuel + 1, toks =>
+    match toks with
+    | "T" :: i :: rest =>
+      (i.toNat?.bind (fun k => env[k]?)).bind (fun r => if ok r then some (Expr.term r, rest) else none)
+    | "N" :: rest => (parseExprTree env ok fuel rest).map (fun (a, r) => (Expr.not a, r))
+    | "n" :: rest => (parseExprTree env ok fuel rest).map (fun (a, r) => (a.mkNot, r))
+    | op :: rest =>
+      if op ∈ ["A", "a", "O", "o", "X", "x"] then
+        (parseExprTree env ok fuel rest).bind (fun (a, r) => (parseExprTree env ok fuel r).map (fun (b, r') =>
+          ((if op == "A" || op == "a" then Expr.and a b else if op == "O" || op == "o" then Expr.or a b
+            else Expr.xor a b), r')))
+      else none
+    | [] => none
+
 def showOptNat : Option Nat → String
   | some n => toString n
   | none => "panic"
@@ -350,6 +367,10 @@ def stepMgr (d : DState) (s : St) (toks : List String) : DState × String :=
       | some pv => pushRes d (pv.eval FUEL s)
       | none => keep d s "bad-op"
     | none => keep d s "bad-op"
+  | "exprtree" :: ts =>
+    match parseExprTree d.env (fun r => r.idx ≠ 0 && Arr.rd s.storage.occs r.idx) (ts.length + 1) ts with
+    | some (e, []) => pushRes d (e.eval FUEL s)
+    | _ => keep d s "bad-op"
   | ["low", f] => match hOf d.env s f with | some f => pushRes d (.ok (s, s.lowNode f)) | none => keep d s "bad-op"
   | ["high", f] => match hOf d.env s f with | some f => pushRes d (.ok (s, s.highNode f)) | none => keep d s "bad-op"
   | ["topcof", f, v] =>
